@@ -1276,4 +1276,527 @@ theorem setPriorityStr_important (env : Env) (p : Pty)
   rw [e, htok]
   rfl
 
+/-! ## the variables block -/
+
+/-- what the item list denotes: (normalised name, value) of every `'var'` item, in order -/
+def varsOf : List VItem → List (Cps × Val)
+  | [] => []
+  | .var n v :: r => (normalize n, v) :: varsOf r
+  | .other _ :: r => varsOf r
+
+def dkeys (d : List (Cps × Val)) : List Cps := d.map (·.1)
+
+/-- T10.7's invariant: the look-up dict is exactly what the serialisable item list denotes, without duplicates -/
+def VInv (s : Vars) : Prop := s.vars = varsOf s.seq ∧ (dkeys s.vars).Nodup
+
+theorem varsOf_append (a b : List VItem) : varsOf (a ++ b) = varsOf a ++ varsOf b := by
+  induction a with
+  | nil => rfl
+  | cons x t ih => cases x <;> simp [varsOf, ih]
+
+theorem vSerialized_eq (s : Vars) : vSerialized s = (varsOf s.seq).map (fun e => (e.1, e.2.css)) := by
+  unfold vSerialized
+  induction s.seq with
+  | nil => rfl
+  | cons x t ih => cases x <;> simp [varsOf, ih]
+
+theorem dictSet_new (d : List (Cps × Val)) (k : Cps) (v : Val) (h : k ∉ dkeys d) : dictSet d k v = d ++ [(k, v)] := by
+  induction d with
+  | nil => rfl
+  | cons e t ih =>
+    simp only [dkeys, List.map_cons, List.mem_cons, not_or] at h
+    have h1 : (e.1 == k) = false := beq_eq_false_iff_ne.mpr (fun x => h.1 x.symm)
+    simp [dictSet, h1, ih h.2]
+
+theorem dictSet_keys_mem (d : List (Cps × Val)) (k : Cps) (v : Val) (h : k ∈ dkeys d) :
+    dkeys (dictSet d k v) = dkeys d := by
+  induction d with
+  | nil => simp [dkeys] at h
+  | cons e t ih =>
+    by_cases h1 : e.1 = k
+    · simp [dictSet, h1, dkeys]
+    · have h2 : (e.1 == k) = false := beq_eq_false_iff_ne.mpr h1
+      simp only [dkeys, List.map_cons, List.mem_cons] at h
+      rcases h with h | h
+      · exact absurd h.symm h1
+      · have := ih h
+        simp only [dkeys] at this
+        simp [dictSet, h2, dkeys, this]
+
+@[simp] theorem isVarNamed_var (nn n : Cps) (v : Val) : isVarNamed nn (.var n v) = (normalize n == nn) := rfl
+@[simp] theorem isVarNamed_other (nn t : Cps) : isVarNamed nn (.other t) = false := rfl
+
+theorem varsOf_replaceFirst (nn : Cps) (v : Val) (seq : List VItem) (hst : normalize nn = nn)
+    (hmem : nn ∈ dkeys (varsOf seq)) : varsOf (replaceFirst nn (.var nn v) seq) = dictSet (varsOf seq) nn v := by
+  induction seq with
+  | nil => simp [varsOf, dkeys] at hmem
+  | cons x t ih =>
+    cases x with
+    | var n w =>
+      by_cases h1 : normalize n = nn
+      · simp [replaceFirst, varsOf, dictSet, h1, hst]
+      · have h2 : (normalize n == nn) = false := beq_eq_false_iff_ne.mpr h1
+        simp only [varsOf, dkeys, List.map_cons, List.mem_cons] at hmem
+        rcases hmem with hmem | hmem
+        · exact absurd hmem.symm h1
+        · simp [replaceFirst, varsOf, dictSet, h2, ih hmem]
+    | other c =>
+      simp only [varsOf] at hmem
+      simp [replaceFirst, varsOf, ih hmem]
+
+theorem varsOf_filter (nn : Cps) (seq : List VItem) :
+    varsOf (seq.filter (fun x => !isVarNamed nn x)) = dictDel (varsOf seq) nn := by
+  induction seq with
+  | nil => rfl
+  | cons x t ih =>
+    cases x with
+    | var n w =>
+      by_cases h1 : (normalize n == nn) = true
+      · rw [List.filter_cons_of_neg (by simp [h1])]
+        simp only [varsOf, dictDel]
+        rw [List.filter_cons_of_neg (by simp [h1])]
+        exact ih
+      · rw [List.filter_cons_of_pos (by simp [h1])]
+        simp only [varsOf, dictDel]
+        rw [List.filter_cons_of_pos (by simp [h1])]
+        simp only [dictDel] at ih
+        rw [ih]
+    | other c =>
+      rw [List.filter_cons_of_pos (by simp)]
+      simp only [varsOf]
+      exact ih
+
+theorem delLoop_nomatch (nn : Cps) (fuel : Nat) (rest pre : List VItem) (h : ∀ a ∈ rest, isVarNamed nn a = false) :
+    delLoop nn fuel pre.length (pre ++ rest) = pre ++ rest := by
+  induction fuel generalizing rest pre with
+  | zero => rfl
+  | succ f ih =>
+    cases rest with
+    | nil => simp [delLoop]
+    | cons x r =>
+      have hx : (pre ++ x :: r)[pre.length]? = some x := by simp
+      have hm : isVarNamed nn x = false := h x (by simp)
+      simp only [delLoop, hx, hm, Bool.false_eq_true, if_false]
+      have := ih r (pre ++ [x]) (fun a ha => h a (by simp [ha]))
+      simpa using this
+
+/-- deleting while iterating equals filtering when at most one item matches (then nothing after a deleted item
+needs to be looked at) -/
+theorem delLoop_filter (nn : Cps) (rest pre : List VItem) (fuel : Nat) (hf : rest.length ≤ fuel)
+    (hc : (rest.filter (isVarNamed nn)).length ≤ 1) :
+    delLoop nn fuel pre.length (pre ++ rest) = pre ++ rest.filter (fun x => !isVarNamed nn x) := by
+  induction rest generalizing pre fuel with
+  | nil => cases fuel <;> simp [delLoop]
+  | cons x r ih =>
+    cases fuel with
+    | zero => simp at hf
+    | succ f =>
+      have hf' : r.length ≤ f := by simpa using hf
+      have hx : (pre ++ x :: r)[pre.length]? = some x := by simp
+      simp only [delLoop, hx]
+      by_cases hm : isVarNamed nn x = true
+      · simp only [hm, if_true]
+        have hr : r.filter (isVarNamed nn) = [] := by
+          rw [List.filter_cons_of_pos hm] at hc
+          simp only [List.length_cons] at hc
+          exact List.eq_nil_of_length_eq_zero (by omega)
+        have hr2 : r.filter (fun x => !isVarNamed nn x) = r := by
+          rw [List.filter_eq_self]
+          intro a ha
+          have : a ∉ r.filter (isVarNamed nn) := by rw [hr]; simp
+          simp only [List.mem_filter, not_and] at this
+          simpa using this ha
+        have he : (pre ++ x :: r).eraseIdx pre.length = pre ++ r := by
+          rw [List.eraseIdx_append_of_length_le (Nat.le_refl _)]
+          simp
+        rw [he, List.filter_cons_of_neg (by simp [hm]), hr2]
+        cases r with
+        | nil => cases f <;> simp [delLoop]
+        | cons y r' =>
+          have hno : ∀ a ∈ r', isVarNamed nn a = false := by
+            intro a ha
+            have : a ∉ (y :: r').filter (isVarNamed nn) := by rw [hr]; simp
+            simp only [List.mem_filter, not_and] at this
+            simpa using this (by simp [ha])
+          have := delLoop_nomatch nn f r' (pre ++ [y]) hno
+          simpa using this
+      · simp only [hm, Bool.false_eq_true, if_false]
+        have := ih (pre ++ [x]) f hf' (by rw [List.filter_cons_of_neg hm] at hc; exact hc)
+        simp only [List.length_append, List.length_singleton, List.append_assoc, List.singleton_append] at this
+        rw [this, List.filter_cons_of_pos (by simp [hm])]
+
+theorem mem_keys_of_named (nn : Cps) (seq : List VItem) (a : VItem) (ha : a ∈ seq) (hm : isVarNamed nn a = true) :
+    nn ∈ dkeys (varsOf seq) := by
+  induction seq with
+  | nil => simp at ha
+  | cons x t ih =>
+    simp only [List.mem_cons] at ha
+    rcases ha with rfl | ha
+    · cases a with
+      | var n w => simp only [isVarNamed_var, beq_iff_eq] at hm; simp [varsOf, dkeys, hm]
+      | other c => simp at hm
+    · have := ih ha
+      cases x <;> simp_all [varsOf, dkeys]
+
+theorem named_count_le_one (nn : Cps) (seq : List VItem) (h : (dkeys (varsOf seq)).Nodup) :
+    (seq.filter (isVarNamed nn)).length ≤ 1 := by
+  induction seq with
+  | nil => simp
+  | cons x t ih =>
+    cases x with
+    | var n w =>
+      simp only [varsOf, dkeys, List.map_cons, List.nodup_cons] at h
+      by_cases hm : (normalize n == nn) = true
+      · rw [List.filter_cons_of_pos (by simpa using hm)]
+        have : t.filter (isVarNamed nn) = [] := by
+          rw [List.filter_eq_nil_iff]
+          intro a ha hma
+          have := mem_keys_of_named nn t a ha hma
+          simp only [beq_iff_eq] at hm
+          rw [← hm] at this
+          exact h.1 this
+        simp [this]
+      · rw [List.filter_cons_of_neg (by simpa using hm)]
+        exact ih h.2
+    | other c =>
+      rw [List.filter_cons_of_neg (by simp)]
+      exact ih (by simpa [varsOf] using h)
+
+theorem dictDel_keys_nodup (d : List (Cps × Val)) (k : Cps) (h : (dkeys d).Nodup) : (dkeys (dictDel d k)).Nodup := by
+  unfold dkeys dictDel
+  exact List.Nodup.sublist (List.Sublist.map _ List.filter_sublist) h
+
+theorem dictGet_none (d : List (Cps × Val)) (k : Cps) : dictGet d k = none ↔ k ∉ dkeys d := by
+  induction d with
+  | nil => simp [dictGet, dkeys]
+  | cons e t ih =>
+    by_cases h1 : e.1 = k
+    · simp [dictGet, List.find?, h1, dkeys]
+    · have h2 : (e.1 == k) = false := beq_eq_false_iff_ne.mpr h1
+      have h3 : ¬ k = e.1 := fun x => h1 x.symm
+      unfold dictGet at ih ⊢
+      simp only [List.find?, h2, dkeys, List.map_cons, List.mem_cons, h3, false_or]
+      exact ih
+
+/-- T10.7 `removeVariable` keeps the invariant and returns the reported value -/
+theorem vRemove_inv (s : Vars) (name : Cps) (h : VInv s) :
+    VInv (vRemove s name).st ∧ (vRemove s name).out = .ok (vGet s name) := by
+  unfold vRemove vGet
+  simp only []
+  cases hg : dictGet s.vars (normalize name) with
+  | none => exact ⟨h, rfl⟩
+  | some r =>
+    simp only []
+    refine ⟨⟨?_, dictDel_keys_nodup _ _ h.2⟩, trivial⟩
+    have hc := named_count_le_one (normalize name) s.seq (by rw [← h.1]; exact h.2)
+    have := delLoop_filter (normalize name) s.seq [] s.seq.length (Nat.le_refl _) hc
+    simp only [List.length_nil, List.nil_append] at this
+    simp only [this, varsOf_filter, h.1]
+
+theorem vSet_unchanged_or (env : Env) (s : Vars) (name value : Cps) :
+    (vSet env s name value).st = s ∨
+    ∃ v, env.parseValue value = some v ∧
+      (vSet env s name value).st =
+        { s with seq := (if (vKeys s).contains (normalize name)
+                          then replaceFirst (normalize name) (.var (normalize name) v) s.seq
+                          else s.seq ++ [.var (normalize name) v]),
+                 vars := dictSet s.vars (normalize name) v } := by
+  unfold vSet
+  by_cases hr : s.readonly = true
+  · left; simp [hr]
+  · simp only [hr, Bool.false_eq_true, if_false]
+    by_cases hi : env.isIdent (normalize name) = true
+    · simp only [hi, Bool.not_true, Bool.false_eq_true, if_false]
+      cases hv : env.parseValue value with
+      | none => left; simp only []; cases logCall env <;> rfl
+      | some v => right; exact ⟨v, rfl, rfl⟩
+    · left
+      simp only [hi, Bool.not_false, if_true]
+      cases logCall env <;> rfl
+
+/-- T10.7 `setVariable` keeps the invariant — for names whose normal form is a fixpoint of `normalize` -/
+theorem vSet_inv (env : Env) (s : Vars) (name value : Cps) (h : VInv s)
+    (hst : normalize (normalize name) = normalize name) : VInv (vSet env s name value).st := by
+  rcases vSet_unchanged_or env s name value with hu | ⟨v, _, hu⟩
+  · rw [hu]; exact h
+  · rw [hu]
+    by_cases hc : (vKeys s).contains (normalize name) = true
+    · have hmem : normalize name ∈ dkeys s.vars := by simpa [vKeys, dkeys] using hc
+      simp only [hc, if_true]
+      refine ⟨?_, ?_⟩
+      · simp only []
+        rw [varsOf_replaceFirst _ _ _ hst (by rw [← h.1]; exact hmem), h.1]
+      · simp only []
+        rw [dictSet_keys_mem _ _ _ hmem]; exact h.2
+    · have hmem : normalize name ∉ dkeys s.vars := by simpa [vKeys, dkeys] using hc
+      simp only [hc, Bool.false_eq_true, if_false]
+      refine ⟨?_, ?_⟩
+      · simp only []
+        rw [varsOf_append, dictSet_new _ _ _ hmem, h.1]
+        simp [varsOf, hst]
+      · simp only []
+        rw [dictSet_new _ _ _ hmem]
+        simp only [dkeys, List.map_append, List.map_cons, List.map_nil]
+        rw [List.nodup_append]
+        refine ⟨h.2, by simp, ?_⟩
+        intro a ha b hb
+        simp only [List.mem_singleton] at hb
+        subst hb
+        intro e; subst e; exact hmem ha
+
+theorem varsOf_replaceAll (n : Cps) (v : Val) (seq : List VItem) :
+    varsOf (replaceAll (normalize n) (.var n v) seq) =
+      (varsOf seq).map (fun e => if e.1 == normalize n then (normalize n, v) else e) := by
+  induction seq with
+  | nil => rfl
+  | cons x t ih =>
+    unfold replaceAll at ih ⊢
+    cases x with
+    | var m w =>
+      by_cases h1 : (normalize m == normalize n) = true
+      · simp only [List.map_cons, isVarNamed_var, h1, if_true, varsOf]
+        rw [ih]
+      · simp only [List.map_cons, isVarNamed_var, h1, Bool.false_eq_true, if_false, varsOf]
+        rw [ih]
+    | other c =>
+      simp only [List.map_cons, isVarNamed_other, Bool.false_eq_true, if_false, varsOf]
+      exact ih
+
+theorem map_self {α : Type} (f : α → α) (l : List α) (h : ∀ a ∈ l, f a = a) : l.map f = l := by
+  induction l with
+  | nil => rfl
+  | cons a t ih => simp only [List.map_cons, h a (by simp), ih (fun b hb => h b (by simp [hb]))]
+
+theorem dictSet_map (d : List (Cps × Val)) (k : Cps) (v : Val) (hn : (dkeys d).Nodup) (hm : k ∈ dkeys d) :
+    dictSet d k v = d.map (fun e => if e.1 == k then (k, v) else e) := by
+  induction d with
+  | nil => simp [dkeys] at hm
+  | cons e t ih =>
+    simp only [dkeys, List.map_cons, List.nodup_cons] at hn
+    by_cases h1 : e.1 = k
+    · have hk : k ∉ dkeys t := by rw [← h1]; exact hn.1
+      have : t.map (fun e => if e.1 == k then (k, v) else e) = t := by
+        apply map_self
+        intro a ha
+        have hne : ¬ a.1 = k := fun x => hk (by rw [← x]; exact List.mem_map_of_mem ha)
+        have : (a.1 == k) = false := beq_eq_false_iff_ne.mpr hne
+        simp only [this, Bool.false_eq_true, if_false]
+      have hb : (e.1 == k) = true := by simp [h1]
+      simp only [dictSet, hb, if_true, List.map_cons, this]
+    · have h2 : (e.1 == k) = false := beq_eq_false_iff_ne.mpr h1
+      simp only [dkeys, List.map_cons, List.mem_cons] at hm
+      rcases hm with hm | hm
+      · exact absurd hm.symm h1
+      · simp only [dictSet, h2, Bool.false_eq_true, if_false, List.map_cons]
+        rw [ih hn.2 hm]
+
+def AccInv (a : VAcc) : Prop := a.vars = varsOf a.seq ∧ (dkeys a.vars).Nodup
+
+theorem vSrcStep_inv (a b : VAcc) (x : VSrc) (h : AccInv a) (hs : vSrcStep a x = .ok b) : AccInv b := by
+  cases x with
+  | ident n => simp only [vSrcStep] at hs; injection hs with hs; subst hs; exact h
+  | other t =>
+    simp only [vSrcStep] at hs; injection hs with hs; subst hs
+    refine ⟨?_, h.2⟩
+    simp only []
+    rw [varsOf_append]; simp [varsOf, h.1]
+  | value v =>
+    simp only [vSrcStep] at hs
+    cases hn : a.nameitem with
+    | none => simp [hn] at hs
+    | some n =>
+      simp only [hn] at hs
+      injection hs with hs; subst hs
+      by_cases hc : (a.vars.map (·.1)).contains (normalize n) = true
+      · have hmem : normalize n ∈ dkeys a.vars := by simpa [dkeys] using hc
+        simp only [hc, if_true]
+        refine ⟨?_, ?_⟩
+        · simp only []
+          rw [varsOf_replaceAll, dictSet_map _ _ _ h.2 hmem, h.1]
+        · simp only []
+          rw [dictSet_keys_mem _ _ _ hmem]; exact h.2
+      · have hmem : normalize n ∉ dkeys a.vars := by simpa [dkeys] using hc
+        simp only [hc, Bool.false_eq_true, if_false]
+        refine ⟨?_, ?_⟩
+        · simp only []
+          rw [varsOf_append, dictSet_new _ _ _ hmem, h.1]
+          simp [varsOf]
+        · simp only []
+          rw [dictSet_new _ _ _ hmem]
+          simp only [dkeys, List.map_append, List.map_cons, List.map_nil]
+          rw [List.nodup_append]
+          refine ⟨h.2, by simp, ?_⟩
+          intro a' ha b hb
+          simp only [List.mem_singleton] at hb
+          subst hb
+          intro e; subst e; exact hmem ha
+
+theorem vFold_inv (items : List VSrc) (a b : VAcc) (h : AccInv a) (hs : items.foldlM vSrcStep a = .ok b) :
+    AccInv b := by
+  induction items generalizing a with
+  | nil => simp only [List.foldlM_nil, pure, Except.pure] at hs; injection hs with hs; subst hs; exact h
+  | cons x xs ih =>
+    simp only [List.foldlM_cons, bind, Except.bind] at hs
+    cases h1 : vSrcStep a x with
+    | error e => simp [h1] at hs
+    | ok a' => simp only [h1] at hs; exact ih a' (vSrcStep_inv a a' x h h1) hs
+
+/-- T10.7 `cssText = …` establishes the invariant (whatever the block held before) or leaves the block as it was -/
+theorem vSetCssText_inv (s : Vars) (items : List VSrc) (h : VInv s) : VInv (vSetCssText s items).st := by
+  unfold vSetCssText
+  by_cases hr : s.readonly = true
+  · simpa [hr] using h
+  · simp only [hr, Bool.false_eq_true, if_false]
+    cases hf : items.foldlM vSrcStep {} with
+    | error e => exact h
+    | ok a => exact vFold_inv items {} a ⟨rfl, by simp [dkeys]⟩ hf
+
+
+/-- every reported key is a fixpoint of `normalize` (so that looking a listed key up finds it) -/
+def KeysStable (s : Vars) : Prop := ∀ k ∈ vKeys s, normalize k = k
+
+theorem dictGet_of_mem (d : List (Cps × Val)) (e : Cps × Val) (hn : (dkeys d).Nodup) (he : e ∈ d) :
+    dictGet d e.1 = some e.2 := by
+  induction d with
+  | nil => simp at he
+  | cons x t ih =>
+    simp only [dkeys, List.map_cons, List.nodup_cons] at hn
+    simp only [List.mem_cons] at he
+    rcases he with rfl | he
+    · simp [dictGet, List.find?]
+    · have hne : ¬ x.1 = e.1 := fun h => hn.1 (by rw [h]; exact List.mem_map_of_mem he)
+      have hb : (x.1 == e.1) = false := beq_eq_false_iff_ne.mpr hne
+      have := ih hn.2 he
+      unfold dictGet at this ⊢
+      simp only [List.find?, hb]
+      exact this
+
+theorem vReported_direct (s : Vars) (hn : (dkeys s.vars).Nodup) (hk : KeysStable s) :
+    vReported s = s.vars.map (fun e => (e.1, e.2.css)) := by
+  unfold vReported vKeys
+  rw [List.map_map]
+  apply List.map_congr_left
+  intro e he
+  have h1 : normalize e.1 = e.1 := hk e.1 (List.mem_map_of_mem he)
+  simp only [Function.comp, vGet, h1, dictGet_of_mem s.vars e hn he]
+
+theorem dkeys_dictSet_subset (d : List (Cps × Val)) (k : Cps) (v : Val) (a : Cps) (h : a ∈ dkeys (dictSet d k v)) :
+    a = k ∨ a ∈ dkeys d := by
+  induction d with
+  | nil => simp [dictSet, dkeys] at h; exact Or.inl h
+  | cons e t ih =>
+    simp only [dictSet] at h
+    split at h
+    · simp only [dkeys, List.map_cons, List.mem_cons] at h ⊢
+      rcases h with h | h
+      · exact Or.inl h
+      · exact Or.inr (Or.inr h)
+    · simp only [dkeys, List.map_cons, List.mem_cons] at h ⊢
+      rcases h with h | h
+      · exact Or.inr (Or.inl h)
+      · rcases ih h with h | h
+        · exact Or.inl h
+        · exact Or.inr (Or.inr h)
+
+theorem vSet_keysStable (env : Env) (s : Vars) (name value : Cps) (hk : KeysStable s)
+    (hst : normalize (normalize name) = normalize name) : KeysStable (vSet env s name value).st := by
+  rcases vSet_unchanged_or env s name value with hu | ⟨v, _, hu⟩
+  · rw [hu]; exact hk
+  · rw [hu]
+    intro k hkm
+    simp only [vKeys] at hkm
+    rcases dkeys_dictSet_subset _ _ _ k hkm with h | h
+    · rw [h]; exact hst
+    · exact hk k h
+
+theorem vRemove_keysStable (s : Vars) (name : Cps) (hk : KeysStable s) : KeysStable (vRemove s name).st := by
+  unfold vRemove
+  simp only []
+  cases dictGet s.vars (normalize name) with
+  | none => exact hk
+  | some r =>
+    intro k hkm
+    simp only [vKeys, dictDel] at hkm
+    obtain ⟨e, he, rfl⟩ := List.mem_map.mp hkm
+    exact hk e.1 (List.mem_map_of_mem (List.mem_filter.mp he).1)
+
+/-- the identifiers of a parsed variables text whose normal form is a fixpoint of `normalize` -/
+def VSrcStable : VSrc → Prop
+  | .ident n => normalize (normalize n) = normalize n
+  | _ => True
+
+def AccStable (a : VAcc) : Prop :=
+  (∀ k ∈ dkeys a.vars, normalize k = k) ∧ (∀ n, a.nameitem = some n → normalize (normalize n) = normalize n)
+
+theorem vFold_stable (items : List VSrc) (a b : VAcc) (h : AccStable a) (hi : ∀ x ∈ items, VSrcStable x)
+    (hs : items.foldlM vSrcStep a = .ok b) : AccStable b := by
+  induction items generalizing a with
+  | nil => simp only [List.foldlM_nil, pure, Except.pure] at hs; injection hs with hs; subst hs; exact h
+  | cons x xs ih =>
+    simp only [List.foldlM_cons, bind, Except.bind] at hs
+    cases h1 : vSrcStep a x with
+    | error e => simp [h1] at hs
+    | ok a' =>
+      simp only [h1] at hs
+      refine ih a' ?_ (fun y hy => hi y (by simp [hy])) hs
+      have hx := hi x (by simp)
+      cases x with
+      | ident n =>
+        simp only [vSrcStep] at h1; injection h1 with h1; subst h1
+        exact ⟨h.1, by intro m hm; simp only [Option.some.injEq] at hm; subst hm; exact hx⟩
+      | other t =>
+        simp only [vSrcStep] at h1; injection h1 with h1; subst h1
+        exact h
+      | value v =>
+        simp only [vSrcStep] at h1
+        cases hn : a.nameitem with
+        | none => simp [hn] at h1
+        | some n =>
+          simp only [hn] at h1
+          injection h1 with h1; subst h1
+          refine ⟨?_, by intro m hm; exact h.2 m (by rw [hn]; exact hm)⟩
+          intro k hkm
+          rcases dkeys_dictSet_subset _ _ _ k hkm with hk | hk
+          · rw [hk]; exact h.2 n hn
+          · exact h.1 k hk
+
+theorem vSetCssText_keysStable (s : Vars) (items : List VSrc) (hk : KeysStable s)
+    (hi : ∀ x ∈ items, VSrcStable x) : KeysStable (vSetCssText s items).st := by
+  unfold vSetCssText
+  by_cases hr : s.readonly = true
+  · simpa [hr] using hk
+  · simp only [hr, Bool.false_eq_true, if_false]
+    cases hf : items.foldlM vSrcStep {} with
+    | error e => exact hk
+    | ok a =>
+      have := vFold_stable items {} a ⟨by simp [dkeys], by intro n hn; cases hn⟩ hi hf
+      exact this.1
+
+/-- operations on a variables block -/
+inductive VOp
+  | set (name value : Cps)
+  | remove (name : Cps)
+  | setText (items : List VSrc)
+  | setReadonly (b : Bool)
+
+def vstep (env : Env) (s : Vars) (raising : Bool) : VOp → Vars
+  | .set n v => (vSet (withMode env raising) s n v).st
+  | .remove n => (vRemove s n).st
+  | .setText items => (vSetCssText s items).st
+  | .setReadonly b => { s with readonly := b }
+
+def vrun (env : Env) : Vars → List (Bool × VOp) → Vars
+  | s, [] => s
+  | s, o :: os => vrun env (vstep env s o.1 o.2) os
+
+/-- the guard of `vars_run_partial`: names given to `setVariable` whose normal form is a fixpoint of `normalize` -/
+def VOpStable : VOp → Prop
+  | .set n _ => normalize (normalize n) = normalize n
+  | .setText items => ∀ x ∈ items, VSrcStable x
+  | _ => True
+
+/-- the witness of `C10-escaped-backslash-name` in the variables block -/
+def escVars : Vars :=
+  (vSet exampleEnv (vSet exampleEnv { vars := [], seq := [] } escLit [49]).st escLit [50]).st
+
 end CssVerif.Decl
